@@ -592,3 +592,125 @@ def gen_previous(rng, tree):
                     full[k] = v
         prev = full
     return prev
+
+
+# ---------------------------------------------------------------------------------------------
+# previous values a parameter may hold, candidates built relative to the previous value
+# ---------------------------------------------------------------------------------------------
+def all_leaf_paths(tree, value):
+    return leaf_paths(tree, value, ('double', 'int', 'scaled', 'bool', 'enum', 'string', 'blob'))
+
+
+def push_outside(rng, tree, valid):
+    """a value of the right shape with one or several numeric leaves moved outside the limits (what a driver may
+    report: `dt(value)` converts but does not check limits); Python-side form, to be passed through `dt(...)`"""
+    leaves = [(p, lt) for p, lt in all_leaf_paths(tree, valid) if lt['t'] in ('double', 'int', 'scaled')]
+    if not leaves:
+        return None
+    v = valid
+    for path, lt in rng.sample(leaves, rng.choice([1, 1, 2]) if len(leaves) > 1 else 1):
+        if lt['t'] == 'int':
+            x = rng.choice([lt['max'] + 1, lt['min'] - 1, lt['max'] + 100, lt['min'] - 2 ** 20])
+        else:
+            lo, hi = _f(lt['min']), _f(lt['max'])
+            span = max(abs(lo), abs(hi), 1.0)
+            x = rng.choice([hi + span, lo - span, hi * 2 + 1, lo * 2 - 1, hi + 2.5 * _f(lt.get('scale', fj(1.0))),
+                            lo - 3 * _f(lt.get('scale', fj(1.0)))])
+            if not math.isfinite(x):
+                continue
+        v = subst(v, path, x)
+    return v
+
+
+def leaf_relatives(rng, lt, pv, wire):
+    """offers that are (or look) numerically equal to the leaf value `pv` held, of another kind, or just beside it"""
+    t = lt['t']
+    out = []
+    if t == 'enum':
+        k = int(pv.value)
+        out += [k + 0.5, k + 0.999, k - 0.25, float(k), k, pv.name, k + 1e-9]
+        if k in (0, 1):
+            out.append(bool(k))
+        if not wire:
+            out += [pv, enum_member('zz', k)]
+    elif t == 'int':
+        k = int(pv)
+        out += [k, k + 0.5, k + 0.999, k - 0.5]
+        if abs(k) < 2 ** 53:
+            out.append(float(k))
+        if k in (0, 1):
+            out.append(bool(k))
+    elif t == 'double':
+        x = float(pv)
+        out += [x, _nextafter(x, INF), _nextafter(x, -INF)]
+        if x == int(x) and abs(x) < 2 ** 53:
+            out.append(int(x))
+            if x in (0.0, 1.0):
+                out.append(bool(x))
+    elif t == 'scaled':
+        s = _f(lt['scale'])
+        x = float(pv)
+        if wire:
+            try:
+                k = int(round(x / s))
+                out += [k, float(k) if abs(k) < 2 ** 53 else k, k + 0.5, k + 1]
+            except (OverflowError, ValueError):
+                pass
+        else:
+            out += [x, x + 0.3 * s, x - 0.49 * s, x + s]
+    elif t == 'bool':
+        out += [bool(pv), int(pv), float(pv), int(pv) + 0.5]
+    elif t == 'blob':
+        out += [base64.b64encode(pv).decode('ascii') if wire else pv]
+    else:
+        out += [pv]
+    return out
+
+
+def relative_candidates(rng, tree, prev, wire, n):
+    """candidates derived from the value the parameter holds: the same value (in offered form), and the same value
+    with one or several leaves replaced by an equal-looking offer of another kind / a neighbour"""
+    def offered(t, v):          # canonical -> offered form, structure only
+        k = t['t']
+        if k == 'array':
+            items = [offered(t['elem'], x) for x in v]
+            return items if wire or rng.random() < 0.5 else tuple(items)
+        if k == 'tuple':
+            items = [offered(e, x) for e, x in zip(t['elems'], v)]
+            return items if wire or rng.random() < 0.5 else tuple(items)
+        if k == 'struct':
+            md = dict((kk, m) for kk, m in t['members'])
+            return {kk: offered(md[kk], x) for kk, x in v.items() if kk in md}
+        rel = leaf_relatives(rng, t, v, wire)
+        return rel[0] if k not in ('enum',) else (int(v.value) if wire or rng.random() < 0.5 else v)
+    try:
+        base = offered(tree, prev)
+    except Exception:
+        return []
+    out = [base]
+    leaves = list(all_leaf_paths(tree, prev))
+    if not leaves:
+        return out
+    for _ in range(n):
+        cand = base
+        for path, lt in rng.sample(leaves, min(len(leaves), rng.choice([1, 1, 1, 2, 3]))):
+            try:
+                pv = get_at(prev, path)
+                rel = leaf_relatives(rng, lt, pv, wire)
+            except Exception:
+                continue
+            cand = subst(cand, path, rng.choice(rel))
+        out.append(cand)
+    # partial structs: a member left out (to be taken over from the value held), at any struct position
+    for path, ct in container_paths(tree, prev):
+        if ct['t'] == 'struct':
+            sub = get_at(base, path)
+            if isinstance(sub, dict) and sub:
+                k = rng.choice(list(sub))
+                out.append(subst(base, path, {kk: x for kk, x in sub.items() if kk != k}))
+                out.append(subst(base, path, {kk: (None if kk == k else x) for kk, x in sub.items()}))
+    # equal-length permutation / rotation at the root
+    if isinstance(base, (list, tuple)) and len(base) > 1:
+        rot = list(base[1:]) + [base[0]]
+        out.append(rot if isinstance(base, list) else tuple(rot))
+    return out
